@@ -483,6 +483,110 @@ fn same(exp: &Val, got: &Val) -> bool {
     }
 }
 
+// ---- time values: an independent reading of both notations as (seconds since 1970-01-01T00:00:00Z, fraction digits)
+fn days_from_civil(y: i64, m: i64, d: i64) -> i64 {
+    let y = if m <= 2 { y - 1 } else { y };
+    let era = if y >= 0 { y } else { y - 399 } / 400;
+    let yoe = y - era * 400;
+    let doy = (153 * (if m > 2 { m - 3 } else { m + 9 }) + 2) / 5 + d - 1;
+    let doe = yoe * 365 + yoe / 4 - yoe / 100 + doy;
+    era * 146097 + doe - 719468
+}
+fn civil_from_days(z: i64) -> (i64, i64, i64) {
+    let z = z + 719468;
+    let era = if z >= 0 { z } else { z - 146096 } / 146097;
+    let doe = z - era * 146097;
+    let yoe = (doe - doe / 1460 + doe / 36524 - doe / 146096) / 365;
+    let y = yoe + era * 400;
+    let doy = doe - (365 * yoe + yoe / 4 - yoe / 100);
+    let mp = (5 * doy + 2) / 153;
+    let d = doy - (153 * mp + 2) / 5 + 1;
+    let m = if mp < 10 { mp + 3 } else { mp - 9 };
+    (if m <= 2 { y + 1 } else { y }, m, d)
+}
+fn instant(y: i64, mo: i64, d: i64, h: i64, mi: i64, s: i64, offset_min: i64) -> i64 {
+    days_from_civil(y, mo, d) * 86400 + h * 3600 + mi * 60 + s - offset_min * 60
+}
+fn num(s: &str) -> Option<i64> {
+    if !s.is_empty() && s.bytes().all(|b| b.is_ascii_digit()) { s.parse().ok() } else { None }
+}
+/// X.680 46 / 47 value notation -> instant; None for local times and fractions of minutes / hours
+pub fn asn_time(v: &str, utc: bool) -> Option<(i64, String)> {
+    let zi = v.find(|c| c == 'Z' || c == '+' || c == '-')?;
+    let (dt, off) = v.split_at(zi);
+    let offset_min = match off {
+        "Z" => 0,
+        o => {
+            let sign = if o.starts_with('-') { -1 } else { 1 };
+            let hh = num(o.get(1..3)?)?;
+            let mm = if o.len() == 5 { num(&o[3..5])? } else if o.len() == 3 { 0 } else { return None };
+            sign * (hh * 60 + mm)
+        }
+    };
+    let (digits, frac) = match dt.find(|c| c == '.' || c == ',') {
+        Some(i) => (&dt[..i], dt[i + 1..].to_string()),
+        None => (dt, String::new()),
+    };
+    let (y, rest) = if utc {
+        let yy = num(digits.get(..2)?)?;
+        (if yy >= 50 { 1900 + yy } else { 2000 + yy }, digits.get(2..)?)
+    } else {
+        (num(digits.get(..4)?)?, digits.get(4..)?)
+    };
+    let (mo, d, h) = (num(rest.get(..2)?)?, num(rest.get(2..4)?)?, num(rest.get(4..6)?)?);
+    let (mi, sec) = match rest.len() {
+        6 => (0, 0),
+        8 => (num(&rest[6..8])?, 0),
+        10 => (num(&rest[6..8])?, num(&rest[8..10])?),
+        _ => return None,
+    };
+    if !frac.is_empty() && rest.len() != 10 {
+        return None;
+    }
+    Some((instant(y, mo, d, h, mi, sec, offset_min), frac.trim_end_matches('0').to_string()))
+}
+/// RFC 3339 date-time -> instant
+pub fn rfc_time(v: &str) -> Option<(i64, String)> {
+    let (date, time) = v.split_once('T')?;
+    let dp: Vec<&str> = date.split('-').collect();
+    if dp.len() != 3 {
+        return None;
+    }
+    let zi = time.find(|c| c == 'Z' || c == '+' || c == '-')?;
+    let (t, off) = time.split_at(zi);
+    let offset_min = match off {
+        "Z" => 0,
+        o => {
+            let sign = if o.starts_with('-') { -1 } else { 1 };
+            let (hh, mm) = o[1..].split_once(':')?;
+            sign * (num(hh)? * 60 + num(mm)?)
+        }
+    };
+    let (hms, frac) = match t.split_once('.') {
+        Some((a, b)) => (a, b.to_string()),
+        None => (t, String::new()),
+    };
+    let tp: Vec<&str> = hms.split(':').collect();
+    if tp.len() != 3 {
+        return None;
+    }
+    Some((instant(num(dp[0])?, num(dp[1])?, num(dp[2])?, num(tp[0])?, num(tp[1])?, num(tp[2])?, offset_min), frac.trim_end_matches('0').to_string()))
+}
+/// the DER content of an instant
+fn der_time(i: i64, frac: &str, utc: bool) -> String {
+    let days = i.div_euclid(86400);
+    let secs = i.rem_euclid(86400);
+    let (y, m, d) = civil_from_days(days);
+    let hms = format!("{:02}{:02}{:02}", secs / 3600, secs % 3600 / 60, secs % 60);
+    if utc {
+        format!("{:02}{m:02}{d:02}{hms}Z", y % 100)
+    } else if frac.is_empty() {
+        format!("{y:04}{m:02}{d:02}{hms}Z")
+    } else {
+        format!("{y:04}{m:02}{d:02}{hms}.{frac}Z")
+    }
+}
+
 /// the value with every present OPTIONAL component unwrapped
 fn strip_opt(v: &Val) -> Val {
     match v {
@@ -574,6 +678,15 @@ pub fn der_value(v: &Val, ty: &str) -> Option<Vec<u8>> {
                 _ => return None,
             };
             tlv(0, false, 10, &der_int(n))
+        }
+        // time values: DER writes the instant in canonical form (UTC, seconds present, fraction without trailing zeros)
+        (Val::Str(st), "UTCTime") => {
+            let (i, f) = asn_time(st, true)?;
+            tlv(0, false, 23, der_time(i, &f, true).as_bytes())
+        }
+        (Val::Str(st), "GeneralizedTime") => {
+            let (i, f) = asn_time(st, false)?;
+            tlv(0, false, 24, der_time(i, &f, false).as_bytes())
         }
         (Val::Str(st), t) => {
             let tag = string_tag(t)?;
@@ -769,7 +882,7 @@ impl Prop for C07 {
         "C07"
     }
     fn rule(&self) -> String {
-        "(symbolic level + wire level: every value on the direct route and one representative per notation x feature on the other routes (thorough: all) is compiled into the wirecheck workspace, the generated constant / Holder default is encoded by rasn's DER codec and the bytes are compared with the X.690 encoding of the source value computed by a 100-line reference encoder) per value notation, complete inside: integers = the 53-point boundary set ∪ {±2^127 ends} (typed INTEGER, a fitting constrained INTEGER, a named-number type); TRUE/FALSE; NULL; cstrings = all strings of length <=2 over {a, space, \"\" (escaped quote), é, €} restricted to each of the 11 string types' alphabets plus a 40-character string; bstrings = all of length 0..8 (BIT STRING) and all byte-multiples (OCTET STRING); hstrings = all of 0..2 digits, every digit at every position of a 4-digit string, the 64 walking-one patterns; named-bit lists = all 32 subsets of {b0,b1,b3,b7,b15}; named numbers, enumerals; OIDs of 2..4 arcs with every arc form (number, every X.660 well-known name under its root, name(number), leading value reference); CHOICE / SEQUENCE / SEQUENCE OF values to depth 2 (hand-picked, incl. one-member SEQUENCE values that read like OBJECT IDENTIFIER values) and systematically: every type tree of depth <= 2 over {INTEGER, BOOLEAN, NULL} with constructors SEQUENCE of 1..2 members (each required or OPTIONAL), CHOICE of 2 alternatives, SEQUENCE OF (depth 2 over the leaves and 8 depth-1 representatives; 1.3 k trees, thorough 2.4 k), nested types once as type assignments of their own and once inline, × every value with one component varied at a time (each alternative, OPTIONAL present / absent, lists of length 0..2), judged by a reference DER encoder that is generic in the type tree; values the compiler declines with a warning are counted as skipped by warning class; each × route {value assignment, through two type references, via a value reference, DEFAULT, DEFAULT via value reference, between lexical neighbours; trees written inline also as DEFAULT of a component of that inline type}. Oracle: a symbolic evaluator of the expression forms the templates emit reduces the initialiser (const, LazyLock static, default fn body) to an abstract value compared with the model's (bit strings from named bits modulo trailing zeros). Non-trivial: compiled cleanly and the initialiser was evaluated.".into()
+        "(symbolic level + wire level: every value on the direct route and one representative per notation x feature on the other routes (thorough: all) is compiled into the wirecheck workspace, the generated constant / Holder default is encoded by rasn's DER codec and the bytes are compared with the X.690 encoding of the source value computed by a 100-line reference encoder) per value notation, complete inside: integers = the 53-point boundary set ∪ {±2^127 ends} (typed INTEGER, a fitting constrained INTEGER, a named-number type); TRUE/FALSE; NULL; cstrings = all strings of length <=2 over {a, space, \"\" (escaped quote), é, €} restricted to each of the 11 string types' alphabets plus a 40-character string; bstrings = all of length 0..8 (BIT STRING) and all byte-multiples (OCTET STRING); hstrings = all of 0..2 digits, every digit at every position of a 4-digit string, the 64 walking-one patterns; named-bit lists = all 32 subsets of {b0,b1,b3,b7,b15}; named numbers, enumerals; UTCTime / GeneralizedTime values in every form of the notation (with / without seconds, fractions with . and , , Z / offset / local, leap day) judged by an independent reading of both the ASN.1 and the RFC 3339 notation as instants and by the DER canonical form on the wire; OIDs of 2..4 arcs with every arc form (number, every X.660 well-known name under its root, name(number), leading value reference); CHOICE / SEQUENCE / SEQUENCE OF values to depth 2 (hand-picked, incl. one-member SEQUENCE values that read like OBJECT IDENTIFIER values) and systematically: every type tree of depth <= 2 over {INTEGER, BOOLEAN, NULL} with constructors SEQUENCE of 1..2 members (each required or OPTIONAL), CHOICE of 2 alternatives, SEQUENCE OF (depth 2 over the leaves and 8 depth-1 representatives; 1.3 k trees, thorough 2.4 k), nested types once as type assignments of their own and once inline, × every value with one component varied at a time (each alternative, OPTIONAL present / absent, lists of length 0..2), judged by a reference DER encoder that is generic in the type tree; values the compiler declines with a warning are counted as skipped by warning class; each × route {value assignment, through two type references, via a value reference, DEFAULT, DEFAULT via value reference, between lexical neighbours; trees written inline also as DEFAULT of a component of that inline type}. Oracle: a symbolic evaluator of the expression forms the templates emit reduces the initialiser (const, LazyLock static, default fn body) to an abstract value compared with the model's (bit strings from named bits modulo trailing zeros). Non-trivial: compiled cleanly and the initialiser was evaluated.".into()
     }
     fn selftest(&self) -> Result<u64, String> {
         let f: syn::File = syn::parse_str("pub mod m { pub const A: u8 = 5; pub static O1: LazyLock<ObjectIdentifier> = LazyLock::new(|| Oid::const_new(&[1u32, 2u32]).to_owned()); pub static O3: LazyLock<ObjectIdentifier> = LazyLock::new(|| Oid::new(&[&***O1, &[7u32]].concat()).unwrap().to_owned()); pub static B: LazyLock<BitString> = LazyLock::new(|| [true, false].into_iter().collect()); pub static X: LazyLock<OctetString> = LazyLock::new(|| <OctetString as From<&'static [u8]>>::from(&[175, 9])); pub const C3: C = C::c(C2::z(())); pub static I: LazyLock<T2> = LazyLock::new(|| T2(T1(Integer::from(-2i128)))); }").map_err(|e| e.to_string())?;
@@ -830,6 +943,13 @@ impl Prop for C07 {
         add("bool", "BOOLEAN", "", "TRUE".into(), Val::Bool(true), "true".into());
         add("bool", "BOOLEAN", "", "FALSE".into(), Val::Bool(false), "false".into());
         add("null", "NULL", "", "NULL".into(), Val::Null, "null".into());
+        // ---- time values (every X.680 47 / 46 form of the string)
+        for v in ["990102030405Z", "9901020304Z", "990102030405+0100", "9901020304-0530", "000229235959Z"] {
+            add("time", "UTCTime", "", format!("\"{v}\""), Val::Str(v.to_string()), format!("utc:{}", if v.len() == 13 && v.ends_with('Z') { "canonical" } else if v.ends_with('Z') { "no-seconds" } else { "offset" }));
+        }
+        for v in ["19990102030405Z", "19990102030405.5Z", "19990102030405.125Z", "199901020304Z", "1999010203Z", "19990102030405", "19990102030405+0100", "19990102030405,5Z", "20000229235959.999Z"] {
+            add("time", "GeneralizedTime", "", format!("\"{v}\""), Val::Str(v.to_string()), format!("generalized:{}", if !v.ends_with('Z') && !v.contains('+') { "local" } else if v.contains('+') { "offset" } else if v.contains(',') { "comma-fraction" } else if v.contains('.') { "fraction" } else if v.len() == 15 { "canonical" } else { "short" }));
+        }
         // ---- enumerals
         for (name, _) in [("x", 0), ("y", 7), ("z-z", 8)] {
             add("enumeral", "Enu", "Enu ::= ENUMERATED { x, y(7), z-z }", name.to_string(), Val::Enum(format!("Enu::{}", name.replace('-', "_"))), "enumeral".into());
@@ -1035,9 +1155,11 @@ impl Prop for C07 {
             Outcome::Panic { message, location } => return CaseResult { discs: vec![Disc::new(format!("panic|{location}"), format!("{message}\n{src}"))], nontrivial: false, outcome: "panic".into(), skipped: None },
             // composite values: the statement is about the values *in the generated bindings*; a value the compiler declines
             // with a warning is not among them (counted as skipped, by warning class); a silently missing one is reported below
-            Outcome::Ok { warnings, .. } if c.vt.is_some() => {
+            Outcome::Ok { warnings, .. } if c.vt.is_some() || c.notation == "time" => {
                 let w = warnings.join(" ");
-                let class = if w.contains("A type name is needed") {
+                let class = if w.contains("Time values like") && c.feature == "generalized:local" {
+                    "declined:local-time"
+                } else if w.contains("A type name is needed") {
                     "declined:value-of-inline-anonymous-type"
                 } else if w.contains("values are currently unsupported") {
                     "declined:default-of-inline-constructed-type"
@@ -1067,7 +1189,14 @@ impl Prop for C07 {
         match eval(&expr, &env) {
             Err(e) => discs.push(Disc::new(format!("{kb}|kind=unevaluated"), format!("initialiser not understood by the evaluator: {e}\n{}\n{src}\n{gen}", quote::ToTokens::to_token_stream(&expr)))),
             Ok(got) => {
-                if !same(&c.expected, &got) && same(&strip_opt(&c.expected), &got) {
+                let time_ok = c.notation == "time" && match (&c.expected, &got) {
+                    (Val::Str(a), Val::Str(b)) => asn_time(a, c.ty == "UTCTime").is_some() && asn_time(a, c.ty == "UTCTime") == rfc_time(b),
+                    _ => false,
+                };
+                if time_ok {
+                } else if c.notation == "time" {
+                    discs.push(Disc::new(format!("{kb}|kind=wrong-value"), format!("a time value must be rendered as an RFC 3339 date-time of the same instant handed to chrono's parser\nexpected {:?}\ngot {:?}\ninitialiser: {}\n{src}", c.expected, got, quote::ToTokens::to_token_stream(&expr))));
+                } else if !same(&c.expected, &got) && same(&strip_opt(&c.expected), &got) {
                     discs.push(Disc::new(format!("{kb}|kind=optional-component-without-Some"), format!("a present OPTIONAL component is rendered as the bare value\nexpected {:?}\ngot {:?}\ninitialiser: {}\n{src}", c.expected, got, quote::ToTokens::to_token_stream(&expr))));
                 } else if !same(&c.expected, &got) {
                     discs.push(Disc::new(format!("{kb}|kind=wrong-value"), format!("expected {:?}\ngot {:?}\ninitialiser: {}\n{src}", c.expected, got, quote::ToTokens::to_token_stream(&expr))));
